@@ -196,6 +196,8 @@ struct Planned {
     exact: bool,
     moves_refs: bool,
     token: String,
+    /// both-flags placements: kind of the `-B` commits and position of the `-A` commit
+    placement: Option<String>,
 }
 
 fn rev_of(c: &CInfo) -> String {
@@ -218,12 +220,49 @@ fn pick<'a>(r: &mut Rng, s: &'a State, allow_root: bool) -> &'a CInfo {
     }
 }
 
-fn plan(r: &mut Rng, repo: &mut Repo, s: &State, expr: &str, token: &str, force: Option<usize>) -> Planned {
-    let k = force.unwrap_or_else(|| r.below(23));
+/// Targets of a placement with BOTH `--insert-after X` and `--insert-before Y…` (third arm of
+/// `compute_commit_location`).  `focus`: the dedicated stream — the first `-B` commit is immutable
+/// (non-root) in 60 % of the draws, and `X` is taken from outside the descendants of the `-B`
+/// commits in 3 of 4 draws (otherwise the loop check refuses a mutable placement and hides nothing
+/// but an immutable one: the immutability check comes first).
+fn pick_ab<'a>(r: &mut Rng, s: &'a State, focus: bool) -> (&'a CInfo, Vec<&'a CInfo>) {
+    let imm: Vec<&CInfo> = s.commits.iter().filter(|c| c.imm && !c.is_root).collect();
+    let mt: Vec<&CInfo> = s.commits.iter().filter(|c| !c.imm).collect();
+    let y0 = if focus {
+        if !imm.is_empty() && (r.below(100) < 60 || mt.is_empty()) {
+            imm[r.below(imm.len())]
+        } else if !mt.is_empty() {
+            mt[r.below(mt.len())]
+        } else {
+            pick(r, s, true)
+        }
+    } else {
+        pick(r, s, true)
+    };
+    let mut ys = vec![y0];
+    if r.chance(1, 4) {
+        let y1 = pick(r, s, false);
+        if y1.commit != y0.commit {
+            ys.push(y1);
+        }
+    }
+    let mut below: BTreeSet<String> = BTreeSet::new();
+    for y in &ys {
+        below.extend(descendants(s, &y.commit));
+    }
+    let outside: Vec<&CInfo> = s.commits.iter().filter(|c| !below.contains(&c.commit)).collect();
+    let (num, den) = if focus { (3, 4) } else { (1, 2) };
+    let x = if !outside.is_empty() && r.chance(num, den) { outside[r.below(outside.len())] } else { pick(r, s, true) };
+    (x, ys)
+}
+
+fn plan(r: &mut Rng, repo: &mut Repo, s: &State, expr: &str, token: &str, force: Option<usize>, focus: bool) -> Planned {
+    let k = force.unwrap_or_else(|| r.below(27));
     let ids = repo.ids.clone();
     let id = |c: &CInfo| ids[&c.change];
     let mut exact = true;
     let mut moves_refs = false;
+    let mut placement = None;
     let (kind, req, args): (&'static str, String, Vec<String>) = match k {
         0 => {
             let a = pick(r, s, true);
@@ -350,9 +389,51 @@ fn plan(r: &mut Rng, repo: &mut Repo, s: &State, expr: &str, token: &str, force:
             };
             ("ref-set", format!("ref-set {}", id(x)), args)
         }
-        _ => ("commit", "commit".to_string(), vec!["commit".into(), "-m".into(), token.to_string()]),
+        22 => ("commit", "commit".to_string(), vec!["commit".into(), "-m".into(), token.to_string()]),
+        _ => {
+            // 23 new, 24 rebase -r, 25 duplicate, 26 revert — each with `-A X -B Y [-B Y2]`
+            let (x, ys) = pick_ab(r, s, focus);
+            let non_root: Vec<&CInfo> = s.commits.iter().filter(|c| !c.is_root).collect();
+            // the commit that is moved / copied / reverted
+            let z = if non_root.is_empty() {
+                pick(r, s, true)
+            } else if k == 24 {
+                pick(r, s, false)
+            } else {
+                non_root[r.below(non_root.len())]
+            };
+            let k = if z.is_root && k == 26 { 23 } else { k }; // reverting the root commit is not modelled
+            let ys_tok = show_list(&ys.iter().map(|c| id(c)).collect::<Vec<_>>());
+            let x_below = ys.iter().any(|y| descendants(s, &y.commit).contains(&x.commit));
+            placement = Some(format!(
+                "-B {}, -A {}",
+                if ys.iter().any(|y| y.is_root) { "root" } else if ys.iter().any(|y| y.imm) { "immutable" } else { "mutable" },
+                if x_below { "a descendant of a -B commit (loop)" } else { "not a descendant of the -B commits" }
+            ));
+            let mut args: Vec<String> = match k {
+                23 => vec!["new".into(), "--no-edit".into(), "-m".into(), token.to_string()],
+                24 => vec!["rebase".into(), "-r".into(), rev_of(z)],
+                25 => vec!["duplicate".into(), rev_of(z)],
+                _ => vec!["revert".into(), "-r".into(), rev_of(z)],
+            };
+            args.push("--insert-after".into());
+            args.push(rev_of(x));
+            for y in &ys {
+                args.push("--insert-before".into());
+                args.push(rev_of(y));
+            }
+            match k {
+                23 => ("new-ab", format!("new-ab {} {ys_tok}", id(x)), args),
+                24 => {
+                    exact = false;
+                    ("rebase-r-ab", format!("rebase-r-ab {} {} {ys_tok}", id(z), id(x)), args)
+                }
+                25 => ("duplicate-ab", format!("duplicate-ab {} {} {ys_tok}", id(z), id(x)), args),
+                _ => ("revert-ab", format!("revert-ab {} {} {ys_tok}", id(z), id(x)), args),
+            }
+        }
     };
-    Planned { kind, req, args, exact, moves_refs, token: token.to_string() }
+    Planned { kind, req, args, exact, moves_refs, token: token.to_string(), placement }
 }
 
 fn build_repo(r: &mut Rng, idx: u64, seed: u64) -> Result<(Repo, State), String> {
@@ -458,7 +539,9 @@ fn classify(res: &Res) -> &'static str {
 }
 
 /// One repository: a sequence of steps, each one request/answer pair.
-fn run_repo(cfg_seed: u64, idx: u64, steps: usize, stream: u64) -> Vec<Rec> {
+/// `focus`: the stream dedicated to placements with both `--insert-after` and `--insert-before`
+/// (every step is one of the four `-A X -B Y` forms; the repository always has a non-root immutable commit).
+fn run_repo(cfg_seed: u64, idx: u64, steps: usize, stream: u64, focus: bool) -> Vec<Rec> {
     let mut r = Rng(cfg_seed.wrapping_mul(0x9E3779B97F4A7C15) ^ (stream.wrapping_add(idx)).wrapping_mul(0xD1B54A32D192ED03));
     let mut recs = vec![];
     let (mut repo, mut state) = match build_repo(&mut r, idx, cfg_seed) {
@@ -470,13 +553,26 @@ fn run_repo(cfg_seed: u64, idx: u64, steps: usize, stream: u64) -> Vec<Rec> {
             return vec![rec];
         }
     };
+    if focus && !state.commits.iter().any(|c| c.imm && !c.is_root) {
+        // nothing immutable but the root: name a random commit (not `@`) in `immutable_heads()`
+        let cands: Vec<String> = state.commits.iter().filter(|c| !c.is_root && !c.wc).map(|c| c.change.clone()).collect();
+        if !cands.is_empty() {
+            let ch = &cands[r.below(cands.len())];
+            repo.base_expr = if repo.base_expr == "none()" { format!("present({ch})") } else { format!("{} | present({ch})", repo.base_expr) };
+            let e = repo.base_expr.clone();
+            match repo.read_state(&e) {
+                Ok(s) => state = s,
+                Err(_) => return recs,
+            }
+        }
+    }
     let mut cur_expr = repo.base_expr.clone();
     for step in 0..steps {
         let token = format!("m{idx}x{step}");
         // --- choose the flavour of this step
         let roll = r.below(100);
-        let flip = roll < 16; // make `@` immutable for this invocation through the configuration
-        let snap = roll < 8 || (20..26).contains(&roll);
+        let flip = !focus && roll < 16; // make `@` immutable for this invocation through the configuration
+        let snap = !focus && (roll < 8 || (20..26).contains(&roll));
         let wc_change = state.wc().map(|c| c.change.clone());
         let expr = match (&wc_change, flip) {
             (Some(ch), true) if repo.base_expr == "none()" => format!("present({ch})"),
@@ -515,8 +611,14 @@ fn run_repo(cfg_seed: u64, idx: u64, steps: usize, stream: u64) -> Vec<Rec> {
             res = repo.env.jj(&repo.dir, &args);
             planned = None;
         } else {
-            let force = if flip { Some([22usize, 11, 12, 0, 1, 13, 16, 8, 10, 15, 7, 2][r.below(12)]) } else { None };
-            let p = plan(&mut r, &mut repo, &state, &expr, &token, force);
+            let force = if flip {
+                Some([22usize, 11, 12, 0, 1, 13, 16, 8, 10, 15, 7, 2][r.below(12)])
+            } else if focus {
+                Some([23usize, 23, 24, 24, 25, 26][r.below(6)])
+            } else {
+                None
+            };
+            let p = plan(&mut r, &mut repo, &state, &expr, &token, force, focus);
             let mut args: Vec<&str> = p.args.iter().map(String::as_str).collect();
             args.push(&cfg_arg);
             if ign {
@@ -572,6 +674,9 @@ fn run_repo(cfg_seed: u64, idx: u64, steps: usize, stream: u64) -> Vec<Rec> {
             rec.tallies.push(("command", p.kind.to_string()));
             rec.tallies.push(("outcome", outcome.to_string()));
             rec.tallies.push(("mode", if p.exact { "exact" } else { "bound" }.to_string()));
+            if let Some(pl) = &p.placement {
+                rec.tallies.push(("placement -A/-B", format!("{pl}: {outcome}")));
+            }
             if outcome == "err" {
                 rec.tallies.push(("err", format!("{}: {}", p.kind, res.err.lines().next().unwrap_or("").chars().take(50).collect::<String>())));
             }
@@ -651,6 +756,9 @@ fn run_repo(cfg_seed: u64, idx: u64, steps: usize, stream: u64) -> Vec<Rec> {
         }
         if ign {
             rec.tallies.push(("flag", "--ignore-immutable".into()));
+        }
+        if focus {
+            rec.tallies.push(("stream", "both -A and -B".into()));
         }
         if after.wc().map(|c| c.imm).unwrap_or(false) {
             rec.tallies.push(("after", "wc-immutable".into()));
@@ -807,11 +915,22 @@ pub fn run(cfg: &Cfg, out: &mut Out) {
     let seed = cfg.seed;
     let t0 = std::time::Instant::now();
     let mut all: Vec<Vec<Rec>> = vec![two_workspace_scenario(seed)];
-    all.extend(par_map(repos, |i| match guard(|| run_repo(seed, i as u64, steps, 4200)) {
+    all.extend(par_map(repos, |i| match guard(|| run_repo(seed, i as u64, steps, 4200, false)) {
         Ok(v) => v,
         Err(e) => {
             let mut rec = Rec::new(None, String::new());
             rec.fails.push(("harness-panic".into(), format!("repo {i}: {e}")));
+            vec![rec]
+        }
+    }));
+    // stream dedicated to placements with both `--insert-after` and `--insert-before` (`ab=N` overrides the count)
+    let ab_repos = cfg.extra.iter().find_map(|a| a.strip_prefix("ab=").and_then(|n| n.parse().ok())).unwrap_or(cfg.n(30, 400) as usize);
+    let ab_steps = 8;
+    all.extend(par_map(ab_repos, |i| match guard(|| run_repo(seed, 100_000 + i as u64, ab_steps, 4300, true)) {
+        Ok(v) => v,
+        Err(e) => {
+            let mut rec = Rec::new(None, String::new());
+            rec.fails.push(("harness-panic".into(), format!("-A/-B repo {i}: {e}")));
             vec![rec]
         }
     }));
@@ -843,8 +962,8 @@ pub fn run(cfg: &Cfg, out: &mut Out) {
         }
     }
     out.note(format!(
-        "{} repositories x {steps} steps; every step = 1 command + 1 `jj log` through the real binary ({:.1} s)",
-        n_repos - 1,
+        "{} repositories x {steps} steps + {ab_repos} repositories x {ab_steps} steps of placements with both -A and -B; every step = 1 command + 1 `jj log` through the real binary ({:.1} s)",
+        n_repos - 1 - ab_repos,
         t0.elapsed().as_secs_f64()
     ));
 }
